@@ -74,3 +74,9 @@ claim("C07",
   "Trusted: go/ssa, SCCP evaluator, reference graph (over-approximates calls). Not covered: formatting of float/integer values into literal text, SetTimeRange's re-lexing of a printed condition (quoted through QuoteString/QuoteIdent: C06).",
   "static analysis: SCCP on TokenType methods, who-may-call / field-access sets, dominance and def-use checks in Parser.scan",
   "DESIGN.md 4/C07")
+
+claim("C16",
+  "Decides the mechanisms that make layout neutral where they have a structural form: ScanIgnoreWhitespace skips exactly WS and COMMENT for every token constant; isWhitespace is exactly {space, tab, LF} and reader.read folds CR and CRLF to one LF without swallowing the next rune (all look-ahead scenarios); ParseQuery's separator state machine over (EOF / ; / other) x (flag) is the one the property describes and pushes the peeked token back before delegating; and every token any parse function scans is matched, used, pushed back or reported on every path (so no statement swallows the `;` or token that follows it). NOT covered: gap-by-gap neutrality for every grammar position - the parser's rune-level peeks (parseRegex, parseSegmentedIdents) bypass the token-level comment rule, and the known `SELECT a, /*c*/ b` case lives there - and the character-level comment terminator automaton of the scanner.",
+  "Trusted: go/ssa, SCCP evaluator. The uncovered clause needs the scanner's character automaton composed with the parser's peeks; no sound and specific structural rule was found for it.",
+  "static analysis: SCCP table extraction (skip set, whitespace class, CR folding, separator state machine) + token probe-balance typestate on SSA",
+  "DESIGN.md 4/C16")
